@@ -13,6 +13,8 @@ pub struct W {
     sess: Session,
     /// reference: permission list per user of db t, as last set by the administrator
     perms: BTreeMap<String, String>,
+    /// keeps the member's channel open
+    _to_member: futures::channel::mpsc::Receiver<String>,
 }
 
 const KEYS: &[&str] = &["kx", "xk", "akb", "zz", "$$secret"];
@@ -27,14 +29,31 @@ fn full_state(w: &W) -> String {
         v
     };
     let snapq = w.node.dbs.to_snapshot.read().map(|g| g.clone()).unwrap_or_default();
-    let pending = w.node.dbs.pending_opps.read().map(|p| p.len()).unwrap_or(0);
+    let pending: Vec<(u64, usize, usize, Vec<(String, bool)>)> = w
+        .node
+        .dbs
+        .pending_opps
+        .read()
+        .map(|p| {
+            let mut v: Vec<_> = p
+                .iter()
+                .map(|(id, m)| {
+                    let mut r: Vec<(String, bool)> = m.replications.lock().unwrap().iter().map(|(k, v)| (k.clone(), *v)).collect();
+                    r.sort();
+                    (*id, m.count_replication(), m.count_acknowledged(), r)
+                })
+                .collect();
+            v.sort();
+            v
+        })
+        .unwrap_or_default();
     let watchers: Vec<_> = all.keys().map(|n| with_db(&w.node.dbs, n, |db| watcher_counts(db))).collect();
     let strip: BTreeMap<_, BTreeMap<_, _>> = all
         .iter()
         .map(|(n, d)| (n.clone(), d.iter().map(|(k, v)| (k.clone(), (v.value.clone(), v.version, v.state))).collect()))
         .collect();
     format!(
-        "{:?}|{:?}|{:?}|{}|role={}|{:?}|{:?}|{:?}|auth={}",
+        "{:?}|{:?}|{:?}|{:?}|role={}|{:?}|{:?}|{:?}|auth={}",
         strip,
         members,
         snapq,
@@ -170,7 +189,13 @@ impl SeqModel for C09 {
         }
         admin.exec(&node, "set $$secret alpha");
         admin.exec(&node, "create-user bob bt");
-        let mut w = W { node, admin, sess: Session::new(), perms: BTreeMap::new() };
+        // the node is the primary of a cluster: a secondary x:1 is a member, and one operation
+        // sent to it is still unacknowledged - cluster commands have something to act upon
+        let (tx, rx) = futures::channel::mpsc::channel::<String>(1000);
+        node.dbs.add_cluster_member(ClusterMember { name: "x:1".to_string(), role: ClusterRole::Secoundary, sender: Some(tx) });
+        node.dbs.register_pending_opp(5, "replicate t kx -1 5".to_string(), &"x:1".to_string());
+        node.dbs.register_pending_opp(5, "replicate t kx -1 5".to_string(), &"y:1".to_string());
+        let mut w = W { node, admin, sess: Session::new(), perms: BTreeMap::new(), _to_member: rx };
         w.node.drain_queues();
         w
     }
